@@ -3948,13 +3948,26 @@ impl Zeroconf {
             }
         };
 
+        // The socket is shared by all interfaces: select the outgoing one first,
+        // as `send_dns_outgoing_impl` does, or the packet leaves on whichever
+        // interface was used last.
+        let pktinfo = &sock.pktinfo;
+        let selected = match if_addr.ip() {
+            IpAddr::V4(ipv4) => pktinfo.set_multicast_if_v4(&ipv4),
+            IpAddr::V6(_) => pktinfo.set_multicast_if_v6(intf.index),
+        };
+        if let Err(e) = selected {
+            debug!("UnregisterResend: failed to set multicast interface: {}", e);
+            return;
+        }
+
         debug!("UnregisterResend from {:?}", if_addr);
         multicast_on_intf(
             &packet[..],
             &intf.name,
             intf.index,
             if_addr,
-            &sock.pktinfo,
+            pktinfo,
             self.port,
         );
 
